@@ -1140,6 +1140,46 @@ async fn one_config(a: Args, idx: usize, proto: Proto, transport: Transport) -> 
                     let _ = s.send_to(&dg, ("127.0.0.1", d.client_port)).await;
                     n += 1;
                 }
+                // names that are the raw octets of an address literal (a table keyed by the target must not take the name
+                // "\x7f\0\0\x01" for 127.0.0.1), mixed with that literal on the same port and with datagrams whose sending fails
+                // (too large to be wrapped), from ONE application socket - and then the application goes on
+                if let Ok(s2) = UdpSocket::bind("127.0.0.1:0").await {
+                    let port = udp_target.as_ref().map(|t| t.port).unwrap_or(9);
+                    let raw_name = |octets: &[u8], payload: &[u8]| {
+                        let mut dg = vec![0u8, 0, 0, 3, octets.len() as u8];
+                        dg.extend_from_slice(octets);
+                        dg.extend_from_slice(&port.to_be_bytes());
+                        dg.extend_from_slice(payload);
+                        dg
+                    };
+                    let big = vec![0x55u8; 65450];
+                    let script: Vec<Vec<u8>> = vec![
+                        socks5_udp("127.0.0.1", port, b"literal first"),
+                        raw_name(&[127, 0, 0, 1], &big),
+                        socks5_udp("127.0.0.1", port, b"literal again"),
+                        raw_name(&[127, 0, 0, 1], b"octets as a name"),
+                        socks5_udp("127.0.0.1", port, &big),
+                        raw_name(&[0, 0, 0, 0, 0, 0, 0, 0, 0, 0, 0, 0, 0, 0, 0, 1], &big),
+                        [vec![0u8, 0, 0, 4], vec![0u8; 15], vec![1], port.to_be_bytes().to_vec(), b"v6 literal".to_vec()].concat(),
+                        raw_name(&[0, 0, 0, 0, 0, 0, 0, 0, 0, 0, 0, 0, 0, 0, 0, 1], b"v6 octets as a name"),
+                        socks5_udp("127.0.0.1", port, b"and on"),
+                        socks5_udp("127.0.0.1", port, b"and on"),
+                    ];
+                    for dg in script {
+                        let _ = s2.send_to(&dg, ("127.0.0.1", d.client_port)).await;
+                        tokio::time::sleep(Duration::from_millis(40)).await;
+                        n += 1;
+                    }
+                    // ... and goes on to 70 further targets: more than the binding table holds, so that whatever the history
+                    // above left behind in the table travels to its oldest end and is looked at when room is made
+                    for k in 0..70u16 {
+                        let _ = s2.send_to(&socks5_udp("127.0.0.1", 20000 + k, b"next target"), ("127.0.0.1", d.client_port)).await;
+                        tokio::time::sleep(Duration::from_millis(5)).await;
+                        n += 1;
+                    }
+                    tokio::time::sleep(Duration::from_millis(200)).await;
+                    rep.mon("from-local-applications:literal-octets-as-names-and-failing-sends-from-one-socket", 80);
+                }
                 rep.evaluations += n;
                 rep.mon("from-local-applications:odd-target-names-over-socks5-udp", n);
                 tokio::time::sleep(Duration::from_millis(500)).await;
